@@ -170,6 +170,9 @@ func (f *fakeNet) ListenPacket(network string, address string) (net.PacketConn, 
 	if err != nil {
 		return nil, err
 	}
+	s.mu.Lock()
+	s.tag = "(ListenPacket)" // the TURN client's socket (the port range is for host candidates and reflexive bases)
+	s.mu.Unlock()
 
 	return s, nil
 }
